@@ -125,16 +125,27 @@ func randomVariety(rnd *rand.Rand) sessVariety {
 	if !tr.ExtendedLength && v.MaxLe > 256 {
 		v.MaxLe = 256 // premise: the caller does not ask a chip without extended length for more than 256
 	}
-	v.DG13Size = []int{0, 5, 127, 128, 129, 231, 232, 255, 256, 257, 258, 700, 4093}[rnd.Intn(13)]
+	// (30000: a large file after small ones - the read size a session works with must not shrink with the files it has read)
+	v.DG13Size = []int{0, 5, 127, 128, 129, 231, 232, 255, 256, 257, 258, 700, 4093, 30000}[rnd.Intn(14)]
 	// premise of the success clause: the file fits into the library's limit of 1000 reads at the chip's response cap
 	if v.Transport.MaxRead > 0 && v.DG13Size/v.Transport.MaxRead > 900 {
-		v.Transport.MaxRead = 8
+		v.Transport.MaxRead = v.DG13Size/900 + 1
+	}
+	if v.MaxLe > 0 && v.DG13Size/v.MaxLe > 900 {
+		v.MaxLe = 256
 	}
 	return v
 }
 
 // personalise builds the passport for an abstract configuration + variety.
 func personalise(c sessCfg, v sessVariety) (*perso.Passport, error) {
+	// premise of C08's success clause: every file fits into the library's 1000 reads at the chip's response cap
+	// (the sample face / signature images are up to ~20 KiB)
+	for _, n := range c.Dgs {
+		if (n == 2 || n == 7) && v.Transport.MaxRead > 0 && v.Transport.MaxRead < 24 {
+			v.Transport.MaxRead = 24
+		}
+	}
 	o := perso.Options{Seed: v.Seed, IssuerTrusted: c.Trusted, KeySpec: v.KeySpec, Transport: v.Transport, CAN: "123456", DG13Size: v.DG13Size}
 	// content-preserving freedoms of the issuer: the outer length of DG13 in a longer form than the shortest, the
 	// hash list of EF.SOD (a SEQUENCE OF) in ascending / descending / arbitrary order of data group numbers
@@ -191,9 +202,14 @@ func personalise(c sessCfg, v sessVariety) (*perso.Passport, error) {
 	case "strip15":
 		o.StripFromChip = []int{15}
 	case "downgrade":
-		// EF.CardAccess advertises one more PACE protocol than DG14 confirms
+		// EF.CardAccess advertises one more PACE info than DG14 confirms: another protocol, or (every third case) the SAME
+		// protocol with other parameters; written behind or in front of the genuine one
 		extra := chipsim.PaceInfoSpec{OID: chipsim.OIDPaceEcdhGm3Des, ParamID: o.Pace[0].ParamID}
-		if o.Pace[0].OID == chipsim.OIDPaceEcdhGm3Des {
+		if v.Seed%2 == 0 {
+			extra.OID = o.Pace[0].OID
+		}
+		o.CardAccessExtraFirst = v.Seed%4 < 3
+		if o.Pace[0].OID == extra.OID {
 			extra.ParamID = map[int]int{13: 12, 12: 13}[extra.ParamID]
 			if extra.ParamID == 0 {
 				extra.ParamID = 13
